@@ -253,6 +253,10 @@ r_buf_rpos_init_near(r_buf_p r_buf, r_buf_rpos_p rpos, size_t data_size,
 		if (0 > cmp)
 			break;
 	}
+	if (i == rposs_cnt) { /* Ahead of all: rposs[i] is out of array. */
+		memcpy(rpos, &rposs[(rposs_cnt - 1)], sizeof(r_buf_rpos_t));
+		return (0);
+	}
 	/* Select nearest index. */
 	dsize_lo = (data_size - r_buf_data_avail_size(r_buf, &rposs[(i - 1)], NULL));
 	dsize_hi = (r_buf_data_avail_size(r_buf, &rposs[i], NULL) - data_size);
